@@ -336,7 +336,8 @@ func (w *lowWorld) build(p lowPoint) (name, ref, fail string) {
 		args = append(args, r.EArgs...)
 		ref = fmt.Sprintf("var %s = %s(%s)\n", strings.Join(names, ", "), r.Fn, strings.Join(args, ", "))
 	case "boolcast":
-		kinds := map[string]types.BasicKind{"int": types.Int, "int8": types.Int8, "uint8": types.Uint8, "int64": types.Int64, "uint": types.Uint}
+		kinds := map[string]types.BasicKind{"int": types.Int, "int8": types.Int8, "uint8": types.Uint8, "int64": types.Int64, "uint": types.Uint,
+			"float64": types.Float64, "float32": types.Float32, "complex128": types.Complex128}
 		cb := pkg.NewVarStart(token.NoPos, nil, name).Typ(types.Typ[kinds[p.Pt.Ty]])
 		cond := ""
 		switch p.Pt.B {
